@@ -98,6 +98,13 @@ def harmless_patches() -> List[Dict]:
         for f in sorted(os.listdir(d)):
             if f.endswith(".patch"):
                 out.append({"kind": "twin", "id": "harmless-" + f[:-6], "props": list(ALL_PROPS), "patch": os.path.join(d, f), "steps": [], "desc": "harmless half of a seeded two-edit change"})
+    # behaviour-preserving refactorings written by sub-agents (each verified bit-for-bit by its author's equivalence
+    # battery, seeded/_refactor/notes): extract / inline helper, renamed locals, guard clauses, idiom changes ...
+    d = os.path.join(VERIF, "seeded", "_refactor")
+    if os.path.isdir(d):
+        for f in sorted(os.listdir(d)):
+            if f.endswith(".patch"):
+                out.append({"kind": "twin", "id": "refactor-" + f[:-6], "props": list(ALL_PROPS), "patch": os.path.join(d, f), "steps": [], "desc": "behaviour-preserving refactoring (sub-agent, equivalence-checked)"})
     return out
 
 
